@@ -22,7 +22,7 @@ def harnesses(tier, seed):
             if variant == "codec" and "fieldonly" in s.tags:
                 continue
             try:
-                hs.append(gen.value_harness("C02", "c02", s, variant, "Bounds(maxlen=%d)" % maxlen,
+                hs.append(gen.value_harness("C02", "c02", s, variant, "Bounds(maxlen=%d, chain_wrap=True)" % maxlen,
                                             setup_kwargs="has_any=%r" % ("any" in s.tags)))
             except Exception as e:
                 skipped.append((s.name, variant, repr(e)[:200]))
